@@ -39,20 +39,26 @@ CLAIMED = {
               'line-granular interrupts / raising callbacks / re-entrant callbacks, followed by probes compared with the same probe in the '
               'pristine state (tolerance classes from the accuracy properties, exact equality for exact classes). 20% of the runs '
               'enumerate the crash points of one operation: an interrupt right after every state-mutating line it executes (first and '
-              'last occurrence, <= 40 lines), each followed by the same call again and by probes.'),
+              'last occurrence, <= 40 lines), each followed by the same call again and by probes; 30% are ladder programs (one entry point, the same arguments, '
+              'precisions of one 32-bit bucket / inside the 1.05p+10 and 1.2p reuse windows / near neighbours, every rung judged); '
+              'memoized user functions (number-, tuple-, list-, matrix-valued) are aborted and retried and the objects they and '
+              'LU_decomp return are edited by the caller; results of the fp context are compared directly with the pristine value.'),
         note='Trusted: pristine restore = state of a new interpreter (validated by selftest/determinism.py and fork confirmation); mpmath judges itself across histories (not an accuracy oracle).',
         technique='deterministic simulation of call histories with crash-point injection; pristine-state differential oracle',
         design='DESIGN.md section 3 C33'),
     'C34': dict(
         text=('Seeded search over evaluation orders, precision changes and aborted segment extensions of odefun interpolants for problems '
-              'with closed forms; oracle = closed form within the property\'s own bound and an in-order pristine solver.'),
+              'with closed forms; oracle = closed form within the property\'s own bound and an in-order pristine solver; several solvers per run, '
+              'initial-value containers kept and edited by the caller after the odefun call.'),
         note='Trusted: closed forms evaluated by mpmath elementary functions at doubled precision; pristine restore.',
         technique='deterministic simulation of evaluation orders with interrupt/callback fault injection; closed-form + in-order reference',
         design='DESIGN.md section 3 C34'),
     'C38': dict(
         text=('Seeded search over interleavings of several contexts\' programs (mp, two clones, iv, fp) including re-entrant calls from '
               'callbacks; oracle = each context\'s settings equal its model after every step, result types belong to the calling context, '
-              'and each context\'s projection equals its solo run in the pristine state.'),
+              'and each context\'s projection equals its solo run in the pristine state; contexts are made to meet at equal precisions, '
+              'numbers owned by one mp-type context are handed to functions of another, and the routines that reach into another '
+              'context (ctx._iv/_fp/_mp) weigh more in the entry choice.'),
         note='Trusted: pristine restore; solo projections are mpmath judging itself; tolerance classes as for C33.',
         technique='deterministic simulation of seeded context interleavings (incl. re-entrancy); solo-projection oracle',
         design='DESIGN.md section 3 C38'),
